@@ -103,8 +103,7 @@ static void w_setup(int cfg, int thorough)
     for (i = 0; i < NCOUNTS; i++) for (f = 0; f <= NF; f++) w_ops[w_nops++] = OP(O_RESIZE, i, f);
     w_ops[w_nops++] = OP(O_RESIZE0, 0, 1);
     w_ops[w_nops++] = OP(O_REHASH, 0, 0); w_ops[w_nops++] = OP(O_SHRINK, 0, 0); w_ops[w_nops++] = OP(O_SWAP, 0, 0);
-    w_ops[w_nops++] = OP(O_FOREACH, 0, 0); w_ops[w_nops++] = OP(O_FOREACH_FIND, 0, 0);
-    for (k = 0; k < nalpha - 1; k++) w_ops[w_nops++] = OP(O_FIND_RE, k, 0);
+    w_ops[w_nops++] = OP(O_FOREACH, 0, 0);
     for (j = 0; j < N; j++) w_ops[w_nops++] = OP(O_FOREACH_STOP, j, 0);
     w_ops[w_nops++] = OP(O_FOREACH_ERASE, 255, 0);
     for (j = 0; j < N; j++) w_ops[w_nops++] = OP(O_FOREACH_ERASE, j, 0);
@@ -184,9 +183,11 @@ static void take_snap(const struct cstl_hash *h, struct snap *s)
 /* ---- callbacks ---- */
 static int v_seq[4 * MAXN + 8], v_n, v_stop_at, v_accept_at;
 static size_t v_key;
-/* a visit function that looks other elements up in the same table while it is being called (v_nested): plain lookups without a visit
- * function, one per key of the alphabet.  Lookups of keys never move a node that carries the key being searched (both of its buckets
- * were cleaned before the walk began) and never unlink a node, so the walk in progress must not notice. */
+/* a visit function that looks other elements up in the SAME table while it is being called (v_nested).  NOT part of the verdict: the
+ * unchanged library happens to tolerate it (both buckets of the key are cleaned before the walk begins, lookups unlink nothing), but
+ * neither the statements of C03/C04 nor the header promise anything about visit functions that re-enter the table they are called
+ * from, and a behaviour-preserving rewrite (control C03-qb: find searches the chain in place without cleaning it) does not tolerate it.
+ * The operations that used this are no longer in the alphabet; the code is kept for experiments. */
 static int v_nested, nested_bad, nested_calls;
 static void nested_lookups(void)
 {
@@ -513,7 +514,7 @@ static void w_audit(void)
         MC_CHECK(PC04, !ab && r == ((j & 1) ? -(j + 1) : j + 1) && v_n == j + 1, "foreach_const with a visitor returning %d at visit #%d returned %d after %d visits", (j & 1) ? -(j + 1) : j + 1, j, r, v_n);
     }
     /* with no rehash pending a lookup does not touch the table, so foreach_const's visit function may look elements up */
-    if (!s.pending && m_resized && m_count >= 2 && !mc_branch_dead) {
+    if (0 && !s.pending && m_resized && m_count >= 2 && !mc_branch_dead) {      /* not part of the verdict, see the note at nested_lookups() */
         v_n = 0; v_stop_at = -1; v_nested = 1; nested_bad = nested_calls = 0;
         SHIM_CALL(ab, r = cstl_hash_foreach_const(T, cb_count_c, &vcookie));
         v_nested = 0;
